@@ -141,8 +141,12 @@ def array_ufunc(ufunc, method, inputs, kwargs):
             while isinstance(node, ak.layout.RegularArray):
                 shape.append(node.size)
                 node = node.content
+            reachable = 1
+            for dim in shape:
+                reachable *= dim
             if node.format.upper().startswith("M"):
                 nparray = ak.nplike.of(node).asarray(node.view_int64).view(node.format)
+                nparray = nparray[:reachable]
                 nparray = nparray.reshape(tuple(shape) + nparray.shape[1:])
                 return ak.layout.NumpyArray(
                     nparray,
@@ -151,6 +155,7 @@ def array_ufunc(ufunc, method, inputs, kwargs):
                 )
             else:
                 nparray = ak.nplike.of(node).asarray(node)
+                nparray = nparray[:reachable]
                 nparray = nparray.reshape(tuple(shape) + nparray.shape[1:])
                 return ak.layout.NumpyArray(
                     nparray,
